@@ -187,6 +187,7 @@ PROPS = {
     modules=['SlacProps.C09'], regen=True, builds=['default', 'checked', 'zero', 'zerochecked'],
     streams=[dict(name='call', build=b, n=n(150, 2500), oracle='none', rust_oracle=True, laws=['no_crash'], case_timeout=20.0) for b in ['default', 'checked', 'zero', 'zerochecked']] +
             [dict(name='re', n=n(20000, 500000), oracle='none', laws=['no_crash'])] +
+            [dict(name=f'tm{m}', gen=f'py:timegen.py {m}', build='checked', n=n(q, t), oracle='none', laws=['no_crash']) for m, q, t in (('fmt', 3000, 60000), ('parse', 3000, 60000), ('rfc2822', 3000, 60000), ('hand', 0, 0))] +
             # the functions that consult the host's local time zone, run east and west of Greenwich (a zone offset moves values across chrono's limits)
             [dict(name=f'tz{tag}', gen='call:' + TIME_FNS, build=b, n=n(300, 5000), oracle='none', laws=['no_crash'], tz=tz, case_timeout=20.0)
              for tag, tz in (('east', 'CET-1CEST,M3.5.0,M10.5.0/3'), ('west', 'EST5EDT,M3.2.0,M11.1.0')) for b in ('default', 'checked')],
@@ -231,9 +232,15 @@ PROPS = {
              'Unicode case mapping / White_Space from Rust std tables'],
  ),
  'C16': dict(
-    modules=['SlacProps.C16', 'SlacProps.C16Float'],
+    modules=['SlacProps.C16', 'SlacProps.C16Float', 'SlacProps.C16Rfc', 'SlacProps.C16RfcFloat'],
     streams=[
         dict(name='tmrange', n=n(0, 1), view='tmrange', oracle='none', laws=['tmrange'], case_timeout=600.0),
+        dict(name='tmfmt', gen='py:timegen.py fmt', n=n(6000, 150000), oracle='none', laws=['no_crash']),
+        dict(name='tmparse', gen='py:timegen.py parse', n=n(6000, 150000), oracle='none', laws=['no_crash']),
+        dict(name='tmtz', gen='py:timegen.py tz', n=n(3000, 60000), oracle='none', laws=['no_crash']),
+        dict(name='tmrfc3339', gen='py:timegen.py rfc3339', n=n(6000, 150000), oracle='none', laws=['no_crash']),
+        dict(name='tmrfc2822', gen='py:timegen.py rfc2822', n=n(6000, 150000), oracle='none', laws=['no_crash']),
+        dict(name='tmhand', gen='py:timegen.py hand', n=n(0, 0), oracle='none', laws=['no_crash']),
         dict(name='call:date,time,date_to_string,time_to_string,string_to_date,string_to_time,string_to_datetime,day_of_week,encode_date,encode_time,inc_month,is_leap_year,year,month,day,hour,minute,second,millisecond', gen='call:date,time,date_to_string,time_to_string,string_to_date,string_to_time,string_to_datetime,day_of_week,encode_date,encode_time,inc_month,is_leap_year,year,month,day,hour,minute,second,millisecond', n=n(400, 20000), oracle='none', laws=['no_crash']),
         dict(name='num', n=n(30000, 1000000), oracle='none'),
     ],
